@@ -571,8 +571,8 @@ Definition visit_lambda (rec : visitor) (ret_type : option ptype) (nparams : nat
 Definition bottom_text (t : option ptype) (idt : nat) : segs :=
   T (spaces idt) ++
   match t with
-  | Some t' => paren (T "TODO()" ++ T " as " ++ T (type_name t'))
-  | None => T "TODO()"
+  | Some t' => paren (T "TODO" ++ paren [] ++ T " as " ++ T (type_name t'))
+  | None => T "TODO" ++ paren []
   end.
 
 Definition visit_bottom_constant (t : option ptype) (s : st) : st :=
@@ -631,8 +631,8 @@ Definition visit_boolean_constant (lit : string) (s : st) : st :=
 (* ---- visit_array_expr *)
 Definition array_empty_text (array_type : ptype) (idt : nat) : segs :=
   if negb (ty_specialized array_type)
-  then T (spaces idt) ++ T "emptyArray<" ++ T (ty_arg0_name array_type) ++ T ">()"
-  else T (spaces idt) ++ T (ty_arg0_name array_type) ++ T "Array(0)".
+  then T (spaces idt) ++ T "emptyArray<" ++ T (ty_arg0_name array_type) ++ T ">" ++ paren []
+  else T (spaces idt) ++ T (ty_arg0_name array_type) ++ T "Array" ++ paren (T "0").
 
 Definition array_text (array_type : ptype) (idt : nat) (cr : list segs) : segs :=
   if negb (ty_specialized array_type)
@@ -912,3 +912,181 @@ Fixpoint text_mismatches (i : nat) (got expected : list string) : list nat :=
    texts that differ from the implementation's, and whether the final state is clean *)
 Definition history_mismatches (h : list (string * pprogram)) (expected : list string) : list nat * bool :=
   let (ts, t) := run_history init_tr h in (text_mismatches 0 ts expected, clean_st (tst t)).
+
+(* ------------------------------------------------------------------------------------ *)
+(* specification vocabulary for C12 (evaluated by harness/c12.py, proved in PrintProofs.v)  *)
+
+(* the marked pieces of a text, in text order; pieces with empty text are nothing visible *)
+Inductive mark :=
+| MDecl (k : dkind) (name : string)
+| MLit (s : string)
+| MOp (s : string).
+
+Definition mk_mark (f : string -> mark) (s : string) : list mark :=
+  if str_empty s then [] else [f s].
+
+Definition seg_marks (sg : seg) : list mark :=
+  match sg with
+  | Txt _ => []
+  | Decl k s => mk_mark (MDecl k) s
+  | Lit s => mk_mark MLit s
+  | Op s => mk_mark MOp s
+  end.
+
+Definition marks (l : segs) : list mark := flat_map seg_marks l.
+
+(* what a node itself declares / carries *)
+Definition own_marks (k : pkind) : list mark :=
+  match k with
+  | KClass name _ _ _ _ _ => mk_mark (MDecl DClass) name
+  | KTypeParam name _ _ => mk_mark (MDecl DTypeParam) name
+  | KVarDecl name _ _ _ => mk_mark (MDecl DVar) name
+  | KField name _ _ _ _ => mk_mark (MDecl DField) name
+  | KParam name _ _ => mk_mark (MDecl DParam) name
+  | KFunc name _ _ _ _ _ _ _ => mk_mark (MDecl DFunc) name
+  | KInt lit _ => mk_mark MLit lit
+  | KReal lit _ => mk_mark MLit lit
+  | KChar lit => mk_mark MLit lit
+  | KString lit => mk_mark MLit lit
+  | KBool lit => mk_mark MLit lit
+  | KBinOp _ op nt => mk_mark MOp (op_str op nt)
+  | KIs op nt _ => mk_mark MOp (op_str op nt)
+  | _ => []
+  end.
+
+(* the inventory of a tree: every declaration, literal and operator node, pre-order *)
+Fixpoint inventory (n : pnode) : list mark :=
+  match n with PN k cs => own_marks k ++ flat_map inventory cs end.
+
+Definition program_inventory (p : pprogram) : list mark := flat_map inventory (decls p).
+
+(* kinds whose text starts with the indentation " " * ident *)
+Definition prefixing (k : pkind) : bool :=
+  match k with
+  | KBlock _ | KSuper _ _ | KTypeParam _ _ _ | KCallArg _ | KField _ _ _ _ _ | KParam _ _ _
+  | KLambda _ _ _ => false
+  | _ => true
+  end.
+
+(* the shape the implementation's children() gives every node: the arities by which the
+   visit_* methods index children_res; an empty array has no elements; the condition of a
+   conditional is an expression printed with its indentation (children_res[0][self.ident:]
+   removes exactly that) *)
+Definition arity_ok (k : pkind) (cs : list pnode) : bool :=
+  let n := List.length cs in
+  match k with
+  | KBlock _ | KNew _ => true
+  | KSuper _ an => if an then Nat.eqb n 0 else true
+  | KClass _ _ _ nf ns nfn => Nat.leb (nf + ns + nfn) n
+  | KTypeParam _ _ _ | KField _ _ _ _ _ | KBottom _ | KInt _ _ | KReal _ _ | KChar _ | KString _
+  | KBool _ | KVariable _ => Nat.eqb n 0
+  | KVarDecl _ _ _ _ | KCallArg _ | KIs _ _ _ | KFieldAccess _ => Nat.eqb n 1
+  | KParam _ _ _ | KFuncRef _ => Nat.leb n 1
+  | KFunc _ _ _ _ _ hb np ntp => Nat.eqb n (np + ntp + (if hb then 1 else 0))
+  | KLambda _ np hb => Nat.eqb n (np + (if hb then 1 else 0))
+  | KArray _ len => if Nat.eqb len 0 then Nat.eqb n 0 else true
+  | KBinOp _ _ _ => Nat.eqb n 2
+  | KCond => Nat.eqb n 3 && match cs with c :: _ => prefixing (kind_of c) | [] => true end
+  | KFuncCall _ _ _ hr => if hr then Nat.leb 1 n else true
+  | KAssign _ hr => Nat.eqb n (if hr then 2 else 1)
+  end.
+
+Fixpoint wf (n : pnode) : bool :=
+  match n with PN k cs => arity_ok k cs && forallb wf cs end.
+
+Definition wf_program (p : pprogram) : bool := forallb wf (decls p).
+
+(* no round bracket or brace *)
+Definition clean_char (a : ascii) : bool :=
+  negb (Ascii.eqb a "("%char || Ascii.eqb a ")"%char || Ascii.eqb a "{"%char || Ascii.eqb a "}"%char).
+
+Fixpoint clean_str (s : string) : bool :=
+  match s with EmptyString => true | String a r => clean_char a && clean_str r end.
+
+Definition opt_type_name (t : option ptype) : string :=
+  match t with Some t' => type_name t' | None => EmptyString end.
+
+(* every string of a node that ends up in the text *)
+Definition kind_strings (k : pkind) : list string :=
+  match k with
+  | KBlock _ | KCond => []
+  | KSuper ct _ => [type_name ct]
+  | KClass name _ _ _ _ _ => [name]
+  | KTypeParam name _ b => [name; opt_type_name b]
+  | KVarDecl name _ vt inf => [name; opt_type_name vt; type_name inf]
+  | KCallArg name => [match name with Some n => n | None => EmptyString end]
+  | KField name ft _ _ _ => [name; type_name ft]
+  | KParam name pt va => [name; param_print_type pt va]
+  | KFunc name rt _ _ _ _ _ _ => [name; opt_type_name rt]
+  | KLambda rt _ _ => [opt_type_name rt]
+  | KBottom t => [opt_type_name t]
+  | KInt lit _ | KReal lit _ | KChar lit | KString lit | KBool lit => [lit]
+  | KArray at_ _ => [ty_arg0_name at_; lower (ty_arg0_name at_)]
+  | KVariable name => [name]
+  | KBinOp _ op nt => [op_str op nt]
+  | KIs op nt rx => [op_str op nt; ptype_dot_name rx]
+  | KNew ct => [new_type_text ct]
+  | KFieldAccess f | KFuncRef f => [f]
+  | KFuncCall f ta ci _ => [f; type_args_str ta ci]
+  | KAssign name _ => [name]
+  end.
+
+Definition clean_kind (k : pkind) : bool := forallb clean_str (kind_strings k).
+
+Fixpoint clean (n : pnode) : bool :=
+  match n with PN k cs => clean_kind k && forallb clean cs end.
+
+Definition clean_program (pkg : string) (p : pprogram) : bool :=
+  clean_str pkg && forallb clean (decls p).
+
+(* bracket depth: scan o c s d = depth after s, starting at depth d; None when a closing
+   bracket has no opening one *)
+Fixpoint scan (o c : ascii) (s : string) (d : nat) : option nat :=
+  match s with
+  | EmptyString => Some d
+  | String a r =>
+      if Ascii.eqb a o then scan o c r (S d)
+      else if Ascii.eqb a c then match d with 0 => None | S d' => scan o c r d' end
+      else scan o c r d
+  end.
+
+Definition balanced (o c : ascii) (s : string) : bool :=
+  match scan o c s 0 with Some 0 => true | _ => false end.
+
+(* what harness/c12.py evaluates per program: the model's text, whether the program has the
+   shape / lexical hypotheses of the theorems, the two balance checks on the text, and whether
+   the marks of the text are a permutation of the inventory (decided by counting) *)
+Definition mark_eqb (a b : mark) : bool :=
+  match a, b with
+  | MDecl k1 s1, MDecl k2 s2 =>
+      String.eqb s1 s2 &&
+      match k1, k2 with
+      | DClass, DClass | DField, DField | DFunc, DFunc | DParam, DParam
+      | DTypeParam, DTypeParam | DVar, DVar => true
+      | _, _ => false
+      end
+  | MLit s1, MLit s2 => String.eqb s1 s2
+  | MOp s1, MOp s2 => String.eqb s1 s2
+  | _, _ => false
+  end.
+
+Fixpoint remove_one (m : mark) (l : list mark) : option (list mark) :=
+  match l with
+  | [] => None
+  | x :: r => if mark_eqb m x then Some r
+              else match remove_one m r with Some r' => Some (x :: r') | None => None end
+  end.
+
+Fixpoint same_marks (a b : list mark) : bool :=
+  match a with
+  | [] => match b with [] => true | _ => false end
+  | m :: r => match remove_one m b with Some b' => same_marks r b' | None => false end
+  end.
+
+Definition c12_report (pkg : string) (p : pprogram) (expected : string)
+  : bool * bool * bool * bool * bool * bool :=
+  let r := print_segs pkg p in
+  let t := flatten r in
+  (String.eqb t expected, wf_program p, clean_program pkg p,
+   balanced "("%char ")"%char t, balanced "{"%char "}"%char t,
+   same_marks (marks r) (program_inventory p)).
